@@ -18,6 +18,7 @@ import Proofs.ImplV1Lists
 import Proofs.ImplV1Beat
 import Proofs.DecodeSteps
 import Proofs.DecodeReads
+import Proofs.BlobLevel
 
 namespace EngineModel.Properties.C05
 open EngineModel EngineModel.Codec EngineModel.V2 EngineModel.Impl.V2
@@ -190,6 +191,56 @@ theorem C05_typed_arith_in_range (a b : UInt32) (l : UInt8) :
 example : (List.replicate 27 (0 : UInt8)).length < maxCount := by decide
 
 end Arith
+
+/-! ## the decompression loops with a real inflate, and the blob-level decoders
+
+`C05_uncompress_total` quantifies over every oracle with a `Contract`.  `replayOracle` is such an oracle
+built from the independent Lean inflate (`Zlib.inflate`): it swallows the stream window by window, then
+hands out the inflated bytes in pieces of at most `avail_out`, reporting `Z_STREAM_END` with the last
+piece (a rejected stream is swallowed and never ends).  It satisfies the contract, and the LOOP model
+driven by it returns exactly the result-level model `unz` the tie runs — on every blob: the loops drop,
+duplicate or reorder nothing across chunk boundaries, trailing bytes, truncated and rejected streams. -/
+section Blob
+open EngineModel.Impl.Zlib
+
+theorem C05_uncompress_replay_eq_unz (buf : Bytes) (fuel : Nat)
+    (hf : fuelBound (replayContract (streamLen (buf.drop 4))) (replayInit (buf.drop 4)) buf.length ≤ fuel) :
+    uncompress (replayOracle (streamLen (buf.drop 4))) (replayInit (buf.drop 4)) buf.length fuel buf = unz buf :=
+  uncompress_replay_eq_unz buf fuel hf
+
+/-- the fuel is explicit: inflated length + 3 · (blob length − 4) + 1 -/
+theorem C05_replay_fuel (L : Option Nat) (s0 : RState) (n : Nat) :
+    fuelBound (replayContract L) s0 n = s0.left.length + 3 * (n - 4) + 1 := replay_fuel L s0 n
+
+/-- non-vacuity: a concrete stored-block stream through the loops with the replay oracle -/
+example : uncompress (replayOracle (streamLen (EngineModel.Zlib.deflateStored [1, 2, 3])))
+    (replayInit (EngineModel.Zlib.deflateStored [1, 2, 3])) 18 40 (EngineModel.Zlib.frame [1, 2, 3]) = .ok [1, 2, 3] := by
+  decide
+
+/-- `from_blob` / `decode` on a stored blob = decompression, then the payload decoder
+(`Impl/Blob.lean`): never undefined behaviour, for all eleven kinds.  (Waveform kinds: the inflated
+payload is a C++ byte vector, fewer than 2^63 bytes.) -/
+theorem C05_fromBlob_safe (blob : Bytes) (u : Ub) :
+    Impl.Blob.fromBlobTrack2 blob ≠ .ub u ∧ Impl.Blob.fromBlobBeat2 blob ≠ .ub u ∧
+    Impl.Blob.fromBlobCues2 blob ≠ .ub u ∧ Impl.Blob.fromBlobLoops2 blob ≠ .ub u ∧
+    Impl.Blob.fromBlobTrack1 blob ≠ .ub u ∧ Impl.Blob.fromBlobBeat1 blob ≠ .ub u ∧
+    Impl.Blob.fromBlobCues1 blob ≠ .ub u ∧ Impl.Blob.fromBlobLoops1 blob ≠ .ub u ∧
+    ((∀ p, unz blob = .ok p → p.length < maxCount) →
+      Impl.Blob.fromBlobOvw2 blob ≠ .ub u ∧ Impl.Blob.fromBlobOvw1 blob ≠ .ub u ∧
+      Impl.Blob.fromBlobHires1 blob ≠ .ub u) := by
+  refine ⟨fromBlob_never_ub _ blob (fun p _ u => C05_v2_track_safe p u) u,
+    fromBlob_never_ub _ blob (fun p _ u => C05_v2_beat_safe p u) u,
+    fromBlob_never_ub _ blob (fun p _ u => C05_v2_cues_safe p u) u,
+    C05_v2_loops_safe blob u,
+    fromBlob_never_ub _ blob (fun p _ u => C05_v1_track_safe p u) u,
+    fromBlob_never_ub _ blob (fun p _ u => C05_v1_beat_safe p u) u,
+    fromBlob_never_ub _ blob (fun p _ u => C05_v1_cues_safe p u) u,
+    C05_v1_loops_safe blob u, fun hp => ⟨?_, ?_, ?_⟩⟩
+  · exact fromBlob_never_ub _ blob (fun p h u => C05_v2_ovw_safe p (hp p h) u) u
+  · exact fromBlob_never_ub _ blob (fun p h u => C05_v1_ovw_safe p (hp p h) u) u
+  · exact fromBlob_never_ub _ blob (fun p h u => C05_v1_hires_safe p (hp p h) u) u
+
+end Blob
 
 /-! ## step bound: no embedded count can make a decoder spin
 
